@@ -24,8 +24,17 @@ def scratch():
     return _scratch
 
 
+def _reroot(x):
+    """analyse a scratch copy of the tree (self-test variants): same flags, paths re-rooted"""
+    if REPO == '/repo':
+        return x
+    if isinstance(x, str):
+        return x.replace('/repo/', REPO + '/').replace('-I/repo', '-I' + REPO) if not x.startswith('/repo/_build') and '/repo/_build' not in x else x
+    return x
+
+
 def _raw_compdb():
-    bdir = os.path.join(REPO, '_build')
+    bdir = os.path.join('/repo' if REPO != '/repo' else REPO, '_build')
     if os.path.exists(os.path.join(bdir, 'build.ninja')):
         try:
             out = subprocess.run(['ninja', '-C', bdir, '-t', 'compdb'], check=True, stdout=subprocess.PIPE,
@@ -69,7 +78,12 @@ def compile_commands(extra_defs=()):
             cmds[f] = (pri, cmd)
     out = {}
     for f, (_, cmd) in cmds.items():
-        out[f] = _clean(shlex.split(cmd), f, extra_defs)
+        argv = _clean(shlex.split(cmd), f, extra_defs)
+        if REPO != '/repo':
+            argv = [_reroot(a) for a in argv]
+            out[_reroot(f)] = argv
+        else:
+            out[f] = argv
     return out
 
 
@@ -115,6 +129,9 @@ def extract(units, include_re=None, record_re=None, extra_defs=(), jobs=16):
     if not os.access(FACTS, os.X_OK):
         raise AnalysisBroken('fact extractor %s missing: run setup_cmd (./setup.sh)' % FACTS)
     cmds = compile_commands(extra_defs)
+    if REPO != '/repo':
+        include_re = (include_re or '^/repo/(src|private|cppcms|booster/lib)/').replace('^/repo/', '^' + REPO + '/')
+        record_re = (record_re or '^/repo/(src|private|cppcms|booster)/').replace('^/repo/', '^' + REPO + '/')
     sdir = tempfile.mkdtemp(prefix='facts-', dir=scratch())
     db = []
     for u in units:
